@@ -229,7 +229,9 @@ pub fn placeholder_pool(e: &str, full: bool) -> Vec<Val> {
     };
     if full {
         let extra: Vec<Val> = match e {
-            "f64" => [f64::NAN, f64::INFINITY, f64::NEG_INFINITY, -0.0, 0.0, 5e-324, -5e-324, f64::MAX, f64::MIN, 9007199254740993.0, 0.1, 1e300, 1e-300, 170.0, 171.0, 1e18]
+            "f64" => [f64::NAN, f64::INFINITY, f64::NEG_INFINITY, -0.0, 0.0, 5e-324, -5e-324, f64::MAX, f64::MIN, 9007199254740993.0, 0.1, 1e300, 1e-300, 170.0, 171.0, 1e18,
+                      // the integer-type boundaries as doubles (an implementation may take an integer detour there)
+                      9223372036854775808.0, -9223372036854775808.0, 9223372036854774784.0, 18446744073709551616.0, 4294967296.0, 2147483648.0, -2147483649.0]
                 .iter().map(|x| Val::F(*x)).collect(),
             "i64" => [i64::MIN, i64::MAX, i64::MIN + 1, 0, 1, -1, 1 << 31, 1 << 32, 3037000500, 1 << 62, 63, 64, 20, 21]
                 .iter().map(|x| Val::I(*x)).collect(),
@@ -289,10 +291,13 @@ pub fn replay_reject_suffixes(out: &mut Out, v: &Vocab, e: &str, b: &Beh, pol: &
 pub fn boundary_lits(e: &str) -> Vec<String> {
     let v: Vec<&str> = match e {
         "i64" => vec!["0", "1", "2", "3", "7", "20", "21", "62", "63", "64", "2147483648", "4294967295", "4294967296", "3037000499", "3037000500",
-                      "4611686018427387904", "9223372036854775806", "9223372036854775807"],
+                      "4611686018427387904", "9223372036854775806", "9223372036854775807",
+                      // not literals of eval_i64 at all: whatever stands around them, the call must return Err
+                      "9223372036854775808", "18446744073709551616"],
         "num" => vec!["0", "1", "2", "3", "0.5", "2.5", "20", "21", "63", "4294967296", "3037000500", "9007199254740992", "9007199254740993",
                       "4611686018427387904", "9223372036854775807", "9223372036854775806.", "0.1", "1.5"],
         "f64" => vec!["0", "1", "2", "3", "0.5", "0.1", "0.2", "2.5", "9007199254740992", "9007199254740993", "4.9406564584124654e-324", "1.7976931348623157e308",
+                      "9223372036854775808", "9223372036854774784", "18446744073709551616", "4294967296",
                       "179769313486231570000000000000000000000000000000000000000000000000000000000000000000000000000000000000000000000000000000000000000000000000000000000000000000000000000000000000000000000000000000000000000000000000000000000000000000000000000000000000000000000000000000000000000000000000000000000000000000000",
                       "0.000000000000000000000000000000000000000000000000000000000000000000000000000000000000000000000000000000000000000000000000000000000000000000000000000000000000000000000000000000000000000000000000000000000000000000000000000000000000000000000000000000000000000000000000000000000000000000000000000000000000000000000000000000005",
                       "170", "171", "1.5", "3.5"],
